@@ -344,7 +344,13 @@ impl<'c, 'd> Parser<'c, 'd> {
         let mut operands = vec![];
 
         let number = self.decoder.bit32()?;
-        if let Some(g) = GInstTable::lookup_opcode(number as u16) {
+        // Opcodes are 16-bit: a wider number names no opcode (and must not be truncated into one).
+        let nested = if number <= u32::from(u16::MAX) {
+            GInstTable::lookup_opcode(number as u16)
+        } else {
+            None
+        };
+        if let Some(g) = nested {
             // TODO: check whether this opcode is allowed here.
             operands.push(dr::Operand::LiteralSpecConstantOpInteger(g.opcode));
 
